@@ -61,7 +61,7 @@ PROPS = {
                 oracles=[('pipeline', 120, 2500)], oracle_props=['C07'], arith=True),
     'C08': dict(title='missing join values are handled exactly as allow_missing says',
                 suites=[('missing_pairs', 150, 2500), ('join', 150, 2000), ('filter_tables', 80, 1200), ('filter_pair', 60, 800)],
-                oracles=[('setsim', 120, 2000), ('filters', 60, 1000)], oracle_props=['C08']),
+                oracles=[('setsim', 120, 2000), ('filters', 60, 1000), ('ed', 50, 600)], oracle_props=['C08']),
     'C09': dict(title='empty token sets are admitted iff allow_empty',
                 suites=[('index', 50, 500), ('join', 150, 2500), ('filter_pair', 100, 1500), ('filter_tables', 80, 1500)],
                 oracles=[('setsim', 120, 2000), ('filters', 80, 1500)], oracle_props=['C09'], arith=True),
@@ -556,7 +556,7 @@ def dispatch_oracle(O, name, rng, n, stats, props, known_hits):
     if name == 'setsim':
         return O.oracle_setsim(rng, n, stats, props)
     if name == 'ed':
-        return O.oracle_edit_distance(rng, n, stats)
+        return O.oracle_edit_distance(rng, n, stats, tuple(props))
     if name == 'filters':
         return O.oracle_filters(rng, n, stats, props)
     if name == 'matcher':
